@@ -19,6 +19,7 @@ package transport
 import (
 	"bufio"
 	"net"
+	"sync"
 )
 
 func NewTransport(conn net.Conn, readSize, writeSize int) Transport {
@@ -37,10 +38,17 @@ func NewTransport(conn net.Conn, readSize, writeSize int) Transport {
 type bufConn struct {
 	net.Conn
 	rw *bufio.ReadWriter
+	// wmu guards the buffered writer: Close may run concurrently with a writer.
+	wmu sync.Mutex
 }
 
 func (b *bufConn) Close() error {
-	_ = b.Flush()
+	// flush what is pending unless a write is in progress right now (never wait for a writer
+	// that may be stuck in the connection: closing the connection is what unblocks it).
+	if b.wmu.TryLock() {
+		_ = b.rw.Writer.Flush()
+		b.wmu.Unlock()
+	}
 	return b.Conn.Close()
 }
 
@@ -49,14 +57,20 @@ func (b *bufConn) Read(p []byte) (n int, err error) {
 }
 
 func (b *bufConn) Write(p []byte) (n int, err error) {
+	b.wmu.Lock()
+	defer b.wmu.Unlock()
 	return b.rw.Writer.Write(p)
 }
 
 func (b *bufConn) Writev(buffs Buffers) (int64, error) {
+	b.wmu.Lock()
+	defer b.wmu.Unlock()
 	return buffs.WriteTo(b.rw.Writer)
 }
 
 func (b *bufConn) Flush() error {
+	b.wmu.Lock()
+	defer b.wmu.Unlock()
 	return b.rw.Writer.Flush()
 }
 
